@@ -11,11 +11,11 @@ use crate::json::J;
 use crate::model::*;
 use crate::rng::Rng;
 
-pub const RULE: &str = "case = (DNA count matrix of width 1..40 with arbitrary counts incl. wildcard counts, scalar pseudocount, strand-symmetric background, a DNA sequence with wildcards; plus arbitrary finite / -inf scoring matrices with a finite wildcard column). Checks: rc(rc(x)) == x cell-exact for count, frequency, weight and scoring matrices; rc(x)[i][s] == x[M-1-i][complement(s)] cell-exact; rc commutes with to_freq / to_weight / to_scoring under the symmetric background (relative 1e-6: the row sum is taken in another order); rc(pssm) scores position L-M-i of rc(sequence) as pssm scores position i of the sequence (within the f32 summation bound), through the full scan and through score_position on striped sequences in any look-ahead state (none, built for a shorter motif, more than needed; windows crossing a column boundary are sampled on purpose); the wildcard column maps to itself. Non-trivial = width >= 2 and a non-palindromic matrix; distinct = distinct (matrix, sequence).";
+pub const RULE: &str = "case = (DNA count matrix of width 1..40 with arbitrary counts incl. wildcard counts, scalar pseudocount, strand-symmetric background (incl. a wildcard weight and a null complementary pair), other logarithm bases, a DNA sequence with wildcards; plus arbitrary finite / -inf scoring matrices with a finite wildcard column). Checks: rc(rc(x)) == x cell-exact for count, frequency, weight and scoring matrices; rc(x)[i][s] == x[M-1-i][complement(s)] cell-exact; rc commutes with to_freq / to_weight / to_scoring under the symmetric background (relative 1e-6: the row sum is taken in another order); rc(pssm) scores position L-M-i of rc(sequence) as pssm scores position i of the sequence (within the f32 summation bound), through the full scan and through score_position on striped sequences in any look-ahead state (none, built for a shorter motif, more than needed; windows crossing a column boundary are sampled on purpose); the wildcard column maps to itself. Non-trivial = width >= 2 and a non-palindromic matrix; distinct = distinct (matrix, sequence).";
 
 pub const REQUIRED: &[&str] = &[
     "type.count", "type.frequency", "type.weight", "type.scoring", "check.involution", "check.definition",
-    "check.commutes", "check.mirrored_scores", "check.mirrored_score_position", "score_position.no_lookahead_rows", "score_position.too_few_lookahead_rows", "score_position.window_crosses_column", "class.finite_wildcard_column", "class.neg_inf_cells",
+    "check.commutes", "check.involution_other_base", "class.background_with_null_complementary_pair", "check.mirrored_scores", "check.mirrored_score_position", "score_position.no_lookahead_rows", "score_position.too_few_lookahead_rows", "score_position.window_crosses_column", "class.finite_wildcard_column", "class.neg_inf_cells",
     "class.sequence_with_wildcards", "class.width=1", "class.background_with_wildcard_frequency",
 ];
 
@@ -80,7 +80,11 @@ fn run_case(case: u64, rng: &mut Rng, rep: &mut Report) {
         rep.cover("class.background_with_wildcard_frequency");
     }
     let half = (1.0 - n) / 2.0;
-    let a = *rng.pick(&[0.25f32, 0.125, 0.375, 0.3125, 0.0625]) * (1.0 - n);
+    // (0 and 0.5: one complementary pair never occurs - an AT-only or GC-only background)
+    let a = *rng.pick(&[0.25f32, 0.125, 0.375, 0.3125, 0.0625, 0.0, 0.5]) * (1.0 - n);
+    if a == 0.0 || a == half {
+        rep.cover("class.background_with_null_complementary_pair");
+    }
     let c = half - a;
     let bg = match Background::<Dna>::new(GenericArray::from([a, c, a, c, n])) {
         Ok(b) => b,
@@ -155,6 +159,39 @@ fn run_case(case: u64, rng: &mut Rng, rep: &mut Report) {
     if rweight.background().frequencies() != weight.background().frequencies() || rscoring.background().frequencies() != scoring.background().frequencies() {
         fail(rep, "c10.definition", "rc changes the background of the matrix".into(), J::Null);
         return;
+    }
+    // scoring matrices in another logarithm base, and the way back to weights: equality (`==`, the
+    // whole object) after a double reverse complement, and commutation of rc with the From impl
+    {
+        let base = *rng.pick(&[10.0f32, std::f32::consts::E, 3.0, 2.0]);
+        let res = guard(|| {
+            let sb = weight.to_scoring_with_base(base);
+            let rr = sb.reverse_complement().reverse_complement();
+            let w_then_rc = lightmotif::pwm::WeightMatrix::from(sb.clone()).reverse_complement();
+            let rc_then_w = lightmotif::pwm::WeightMatrix::from(sb.reverse_complement());
+            (sb, rr, w_then_rc, rc_then_w)
+        });
+        match res {
+            Err(p) => {
+                fail(rep, &format!("c10.panic:{}", panic_site(&p)), format!("panic: {}", p), J::Null);
+                return;
+            }
+            Ok((sb, rr, a1, a2)) => {
+                rep.cover("check.involution_other_base");
+                if rr != sb {
+                    fail(rep, "c10.involution", format!("scoring matrix in base {}: rc(rc(x)) != x under ==", base), J::Null);
+                    return;
+                }
+                for i in 0..w {
+                    for s in 0..5 {
+                        if !same_f32(a1.matrix()[i][s], a2.matrix()[i][s]) {
+                            fail(rep, "c10.commutes", format!("base {}: WeightMatrix::from(x).rc()[{}][{}] = {} but WeightMatrix::from(x.rc()) has {}", base, i, s, a1.matrix()[i][s], a2.matrix()[i][s]), J::Null);
+                            return;
+                        }
+                    }
+                }
+            }
+        }
     }
     // commutation with the conversions
     rep.cover("check.commutes");
